@@ -895,17 +895,20 @@ def normalize_sources(sources: Dict[str, str], table: Optional[Set[str]] = None)
             ast.fix_missing_locations(tree)
             # re-parse so that positions are those of the normal form, then tidy the aliases left by inlining
             tree = ast.parse(ast.unparse(tree))
+            nts2 = {k: v for k, v in _namedtuple_table(tree).items() if _qual(modname, None, k) not in table}
             for st in tree.body:
                 if isinstance(st, ast.FunctionDef):
                     _inline_local_closures(st)
                     _coalesce_aliases(st)
                     _canonical_loops(st)
+                    _scalar_replace_records(st, nts2)
                 elif isinstance(st, ast.ClassDef):
                     for s2 in st.body:
                         if isinstance(s2, ast.FunctionDef):
                             _inline_local_closures(s2)
                             _coalesce_aliases(s2)
                             _canonical_loops(s2)
+                            _scalar_replace_records(s2, nts2)
             ast.fix_missing_locations(tree)
             out[rel] = ast.unparse(tree) + "\n"
     return out, inlined
